@@ -272,8 +272,12 @@ def ctrl_path_builder(ctx: Ctx, pid: str):
               found=tstr(rets[0][1].value), required="CtrlPath(module id, immutable copy of the current path)")
     ti = _fn(ctx, TMODULE, "TModule.__init__", rule)
     uid_ok = any(s.target == pat("self.path_builder") and pmatch("CtrlPathBuilder(self.uid)", _val(ex, s.value)) is not None for ex, s in ti.facts(Store))
-    inc_ok = any(tstr(s.target).endswith("__next_uid") and s.aug == "+" for _, s in ti.facts(Store))
-    ctx.check(uid_ok and inc_ok, rule + ".module-id", ti.site, "TModule.__init__.uid", found=f"builder gets uid: {uid_ok}, uid counter incremented: {inc_ok}",
+    # self.uid is read from a counter stored on the *class* and that same class attribute is incremented
+    src = [s.value for _, s in ti.facts(Store) if s.target == pat("self.uid")]
+    counter = src[0] if src else None
+    class_level = counter is not None and counter[0] == "a" and counter[1][0] == "n" and counter[1][1][:1].isupper()
+    inc_ok = class_level and any(s.target == counter and s.aug == "+" and s.value == ("c", 1) and not [fr for fr in s.frames if fr[0] in ("py", "for")] for _, s in ti.facts(Store))
+    ctx.check(uid_ok and inc_ok, rule + ".module-id", ti.site, "TModule.__init__.uid", found=f"builder gets uid: {uid_ok}; uid source {tstr(counter) if counter else None}; class-level counter incremented: {inc_ok}",
               required="every TModule has its own id: paths of different modules are never exclusive")
 
 
@@ -342,8 +346,54 @@ def exclusive_with(ctx: Ctx, pid: str):
               required="same module and the common prefix is a proper prefix of both paths (neither path contains the other)")
 
 
+HELPERS = "transactron/utils/transactron_helpers.py"
+
+
+def longest_common_prefix_helper(ctx: Ctx, pid: str):
+    """The helper both exclusivity predicates rest on: the result is a *common* prefix that stops at the first
+    difference and is never longer than the shortest sequence."""
+    rule = f"{pid}.longest-common-prefix"
+    fn = _fn(ctx, HELPERS, "longest_common_prefix", rule)
+    seqs = ("p", fn.fi.qualname, "*", "seqs")
+    rets = fn.only(Return, lambda r: r.callid is None, rule, "returns")
+    early = [(ex, r) for ex, r in rets if loops(r)]
+    final = [(ex, r) for ex, r in rets if not loops(r)]
+    ok = False
+    detail = "; ".join(f"return {tstr(r.value)} if {fstr(py_guard(r))}" for _, r in early) or "no early return"
+    for ex, r in early:
+        lp = loops(r)
+        m = pmatch("Q_s[Q_k][:Q_i]", r.value)
+        g = py_guard(r)
+        ats = atoms_of(g)
+        if m and m["s"] == seqs and len(lp) == 1 and pmatch("enumerate(zip(*Q_s))", lp[0][1]) == {"s": seqs} and m["i"] == lp[0][0][0] and len(ats) == 1:
+            diff = pmatch("1 < len(set(Q_g))", ats[0])
+            ok = diff is not None and diff["g"] == ("i", ("call", ("n", "zip"), (("star", seqs),), ()), lp[0][0][0]) and equivalent(g, A(ats[0])) is None
+    ctx.check(ok, rule + ".first-difference", early[0][1].site if early else fn.site, "longest_common_prefix.scan", found=detail,
+              required="at the first position where the sequences differ, return the elements before it")
+    okf = False
+    shape = "none"
+    for ex, r in final:
+        v = r.value
+        shape = tstr(v)
+        m = pmatch("min(Q_s, key=Q_k)", v)
+        if m and m["s"] == seqs and m["k"][0] == "lam":
+            clo = ex.closures[m["k"][1]]
+            src = ast.unparse(clo.node.body) if isinstance(clo.node, ast.Lambda) else ""
+            argn = clo.node.args.args[0].arg if isinstance(clo.node, ast.Lambda) and clo.node.args.args else ""
+            okf = src.replace(" ", "") == f"len({argn})"
+        elif m and m["s"] == seqs and m["k"] == ("n", "len"):
+            okf = True
+        elif pmatch("Q_s[Q_c]", v) or pmatch("max(Q_s, key=Q_k)", v):
+            okf = False  # an input sequence returned as is / the longest one: not a common prefix in general
+        else:
+            raise AnalysisError(rule, r.site, f"final return {shape} not in a recognised form")
+    ctx.check(okf, rule + ".shortest", final[0][1].site if final else fn.site, "longest_common_prefix.no-difference", found=f"return {shape}",
+              required="when no position differs the common prefix is the shortest sequence (min by length)")
+
+
 def call_paths_exclusive(ctx: Ctx, pid: str):
     """C01.d."""
+    longest_common_prefix_helper(ctx, pid)
     rule = f"{pid}.call-paths-exclusive"
     fn = _fn(ctx, MANAGER, "call_paths_exclusive", rule)
     p1, p2 = fn.param(0), fn.param(1)
